@@ -14,8 +14,8 @@ PROPS["C13"] = {
                 "DefaultExpandOptions and untyped symbols (no synthesised list/optional commands), group = 0 (models not produced by Instantiate)",
     "partial": "C13_expand_correct_wf covers the whole model of Expand under the STATIC boolean ExpandWf.wf_model (references of the input in range; every list separator reached by expandExpr expands to one alternative, n_alts sep = 1); "
                "C13_wf_model_checks proves that wf_model implies the run-time side conditions expand_checks (no Fatal branch, references stay in range through phase 1, the sortTail permutation is a permutation - phase-1 loop invariant) for every model; "
-               "both booleans are still evaluated on every generated model (verdicts bad:side-conditions-... / bad:static-well-formedness-...). The bridge to Derive.derives (C13_flat_table_is_cfg) is for tables of flat choices "
-               "(no set / lookahead nonterminals left). compiler/syntax.go convertPart/convertRules are covered by the .tm end-to-end oracle only (no model); updateArgRefs/CmdArgs/Pos belong to C16",
+               "both booleans are still evaluated on every generated model (verdicts bad:side-conditions-... / bad:static-well-formedness-...). The bridge to Derive.derives is C13_flat_table_is_cfg for tables of flat choices and (this round) C13_table_with_sets_is_cfg for tables that still hold set nonterminals (one rule per terminal of the resolved set; the resolved terminals must be exactly the set's denotation and lie in [0,T): C15) and lookahead nonterminals (empty rule), i.e. every table to_cfg accepts; "
+               "C13_expand_correct_derives states the full property with derivations of the plain grammar on the right; hypotheses: wf_model, the two executable conditions to_cfg = Some g and nonneg_rules g (no negative symbol), both evaluated by the glue on the implementation's output of every case, and correctly resolved sets (setterms = setden inside [0,T)); the shape of the output table is derived from the success of to_cfg. Not proved: that to_cfg always succeeds on the output of Expand (per rule: C13_expand_shape; checked per case). compiler/syntax.go convertPart/convertRules are covered by the .tm end-to-end oracle only (no model); updateArgRefs/CmdArgs/Pos belong to C16",
     "level_text": "Universal Coq theorems: C13_expand_correct_wf - for every statically well-formed model (wf_model: references in range, simple separators; no hypothesis about the run of the pass) and every original nonterminal X, the language of X in the extended notation "
                   "(least solution of the value equations: optional, nested choice, sequence, wrappers, lists with separators, sets, lookaheads) equals the language of perm(X) in the table produced by the model of "
                   "syntax.Expand (phase 1 with extraction and reuse by Equal, sortTail/Rearrange, phase 2 list and optional rules); C13_flat_table_is_cfg - the least solution of a table of flat choices is exactly "
